@@ -39,6 +39,8 @@ DECIDING = {
     "waits_on_remapped": "match by default-name remapping",
     "waits_after_burst_50plus": "a burst of >= 50 unrelated publications while a waiter was blocked",
     "optional_lookups": "optional lookups (must be immediate)",
+    "conflicting_multi_type_publications": "a rejected multi-type publication whose first type others wait for",
+    "waits_for_falsy_values": "awaited resources whose value is a falsy object",
     "outside_lookups": "lookups outside component startup (must fail immediately)",
     "wait_steps_timed": "wait steps compared with the exact schedule",
     "timed_waits_abandoned": "waits given up by the component (cancelled while blocked) before the publication",
@@ -78,6 +80,8 @@ def run_case(case: Any) -> dict[str, Any]:
                 c["waits_on_multi"] = c.get("waits_on_multi", 0) + 1
             if r["given_name"] != r["name"]:
                 c["waits_on_remapped"] = c.get("waits_on_remapped", 0) + 1
+            if int(e["rid"]) % 3 == 0:
+                c["waits_for_falsy_values"] = c.get("waits_for_falsy_values", 0) + 1
             wb = next((b for b in ev if b["kind"] == "wait-begin" and b["actor"] == e["actor"] and b["rid"] == e["rid"] and b["seq"] < e["seq"]), None)
             p = pub.get(e["rid"])
             if wb is not None and p is not None:
